@@ -70,18 +70,18 @@ def conditions(tier):
                         'h_c13', 'const_int', [('spelling_idx', 'int'), ('v', 'int')],
                         pre=['spelling_idx in %r' % (tuple(chunk),)] + ([vpre] if vpre else []),
                         fixed={'chain': chain},
-                        timeout=120 if tier == 'quick' else 400,
+                        timeout=200 if tier == 'quick' else 400,
                         name='const_int[%s#%d,chain=%d%s]' % (key, ci, chain, (',' + vpre) if vpre else ''),
                         bounds='declared type in {%s} via %d typedef aliases; value: %s'
                         % (', '.join(H.INT_SPELLINGS[i] for i in chunk), chain, vtext),
                         finding_classifier=_classify_const))
     conds.append(ch.Cond('h_c13', 'const_int', [('v', 'int')], fixed={'spelling_idx': -1, 'chain': 0},
-                         timeout=120, name='const_int[untyped]',
+                         timeout=200, name='const_int[untyped]',
                          bounds='no declared type; value: every integer'))
     slen = 2 if tier == 'quick' else 4
     conds.append(ch.Cond('h_c13', 'const_other', [('kind', 'int'), ('s', 'str'), ('b', 'bool')],
                          pre=['0 <= kind <= 3', 'len(s) <= %d' % slen],
-                         timeout=120 if tier == 'quick' else 400, name='const_other',
+                         timeout=200 if tier == 'quick' else 400, name='const_other',
                          bounds='string constants |s|<=%d any code points, booleans, private/non-header' % slen))
     # enumerations
     vals = [('v0', 'int'), ('v1', 'int'), ('v2', 'int'), ('v3', 'int')]
@@ -94,7 +94,7 @@ def conditions(tier):
             [('i1', 'int')] + vals + [('p0', 'bool'), ('p1', 'bool'), ('bitfield', 'bool'), ('typedef', 'bool')],
             pre=['0 <= i1 < %d' % len(H.IDENTS3)],
             fixed=dict(fixed_unused, pool=3, n=2, i0=i0),
-            timeout=170 if tier == 'quick' else 900,
+            timeout=260 if tier == 'quick' else 900,
             name='enum[2 members, first=%s]' % H.IDENTS3[i0],
             bounds='2 members; identifiers of 2-3 words over {FOO,BAR,A}; values: every integer; '
                    'private flags, bitfield, typedef/tag form symbolic',
@@ -106,7 +106,7 @@ def conditions(tier):
             [('i0', 'int'), ('i1', 'int')] + vals + [('bitfield', 'bool')],
             pre=['0 <= i0 < %d' % len(H.IDENTS2), '0 <= i1 < %d' % len(H.IDENTS2)],
             fixed=dict(fixed_unused, pool=2, n=2, p0=False, p1=False, typedef=True, skip_member=sk),
-            timeout=170 if tier == 'quick' else 900, name='enum[2 members, member %d has a (skip) block]' % sk,
+            timeout=260 if tier == 'quick' else 900, name='enum[2 members, member %d has a (skip) block]' % sk,
             bounds='2 members with 2-word identifiers over {FOO,BAR,BAZ,A}; one member documented by a block with (skip); '
                    'values: every integer', finding_classifier=_classify_enum))
     # three members, identifiers FOO_<1..2 words over {FOO,BAR,A}> (shared prefixes of 1 and 2 words)
@@ -121,7 +121,7 @@ def conditions(tier):
         conds.append(ch.Cond(
             'h_c13', 'enum_members', sym,
             pre=['0 <= i1 < %d' % nF, '0 <= i2 < %d' % nF],
-            fixed=fixed, timeout=170 if tier == 'quick' else 1200,
+            fixed=fixed, timeout=260 if tier == 'quick' else 1200,
             name='enum[3 members, first=%s]' % H.IDENTSF[i0],
             bounds='3 members; identifiers FOO_<1-2 words over {FOO,BAR,A}>; values: every integer',
             finding_classifier=_classify_enum))
